@@ -6,6 +6,8 @@
    neighbours (same walk earlier, or a segment that the protocol orders earlier). Statements only. *)
 From Coq Require Import Arith List Bool.
 From SV Require Import SegProto SegGrid Proofs_C24.
+From SV Require GuardFlow.
+From SVG Require SegGuardGen.
 Import ListNotations.
 
 (* every reachable protocol state satisfies the invariant (dependency counters = unfinished predecessors,
@@ -51,3 +53,10 @@ Theorem seg_walk_dependency_order : forall g, deps_b g = true ->
   forall s, In s (in_range_segs g) -> forall pre p post, walk g s = pre ++ p :: post ->
   forall n, In n (needed g p) -> In n pre \/ earlier_segment g (seg_of_sb g (fst n) (snd n)) s.
 Proof. exact deps_sound. Qed.
+
+(* the two critical sections of the assignment are the ones the model takes as atomic steps: in the current text of
+   assign_enc_dec_segments (skeleton regenerated from the source, SVG.SegGuardGen) every write of the dependency map happens with a
+   mutex held, and every write of a row's current_seg_index that happens inside a critical section is inside the one of that same
+   row's assignment mutex (the picture-start and feedback cases write it with no mutex: one thread owns the row then) *)
+Theorem seg_assignment_sections_guard_their_row : GuardFlow.fn_ok SVG.SegGuardGen.seg_assign = true.
+Proof. vm_compute. reflexivity. Qed.
